@@ -21,6 +21,9 @@ META = {
         'result is built on safe_eval; (memo) no memoisation - lru_cache or a '
         'hand-written dict keyed by the raw element values - sits on a path '
         'whose result depends on whether an element is a logical or a number; '
+        '(nomut) no code that runs during a calculation writes in place into '
+        'an array it did not create - a blank replaced in place in a shared '
+        'input array would change what the next consumer of that array sees; '
         '(fill) the two Excel-style reshapers both start from '
         '_init_reshape, whose fill is the array\'s own default, Array\'s '
         'default is #N/A (FalseArray/TrueArray carry the IS... defaults), both '
@@ -44,6 +47,70 @@ def _calls_fn(ctx, g, call, target):
     except Exception:
         return False
     return any((not e.is_ext) and e.dst is target for e in eds)
+
+
+def _helper_paths(ctx, w, first, carriers, depth=0):
+    """If the statement `res = H(..., safe_eval, ...)` hands a carrier of the
+    element evaluator to a private module-level helper H, the blocks of H
+    that produce its result: [(stmts, cond, first, H, carriers in H)]."""
+    v = first.value
+    if not (isinstance(v, ast.Call) and isinstance(
+            v.func, (ast.Name, ast.Attribute)) and depth < 2):
+        return None
+    r_ = ctx.cg.resolve_name_expr(w, v.func)
+    if not (r_ and r_[0] == 'func' and r_[1].module is w.module and
+            r_[1].parent is None and r_[1].cls is None and
+            r_[1].name.startswith('_')):
+        return None
+    h = r_[1]
+    car = {h.params[i] for i, a in enumerate(v.args)
+           if isinstance(a, ast.Name) and a.id in carriers and
+           i < len(h.params)}
+    car |= {k.arg for k in v.keywords if isinstance(k.value, ast.Name)
+            and k.value.id in carriers and k.arg in h.params}
+    if not car:
+        return None
+    rets = [n for n in own_nodes(h) if isinstance(n, ast.Return)
+            and n.value is not None]
+    if len(rets) != 1:
+        return None
+    assigned = {t.id for n in own_nodes(h) if isinstance(n, ast.Assign)
+                for t in n.targets if isinstance(t, ast.Name)}
+    names = [x.id for x in ast.walk(rets[0].value)
+             if isinstance(x, ast.Name) and x.id in assigned]
+    if len(set(names)) != 1:
+        return None
+    resvar = names[0]
+
+    def assigns_res(stmts):
+        return any(isinstance(x, ast.Assign) and any(
+            isinstance(t, ast.Name) and t.id == resvar for t in x.targets)
+            for s in stmts for x in ast.walk(s))
+
+    leaves = []
+
+    def collect(stmts, conds):
+        split = False
+        for st in stmts:
+            if isinstance(st, ast.If) and (assigns_res(st.body) or
+                                           assigns_res(st.orelse)):
+                split = True
+                collect(st.body, conds + [norm_src(st.test)])
+                collect(st.orelse, conds + ['not (%s)' % norm_src(st.test)])
+            elif isinstance(st, (ast.With, ast.Try)) and assigns_res(st.body):
+                split = True
+                collect(st.body, conds)
+        if not split and assigns_res(stmts):
+            leaves.append((stmts, ' and '.join(conds)))
+
+    collect(h.node.body, [])
+    out = []
+    for stmts, cond in leaves:
+        f0 = [x for s in stmts for x in ast.walk(s) if isinstance(
+            x, ast.Assign) and any(isinstance(t, ast.Name) and t.id == resvar
+                                   for t in x.targets)][0]
+        out.append((stmts, cond, f0, h, car))
+    return out or None
 
 
 def rule_funnel(ctx):
@@ -139,24 +206,36 @@ def rule_funnel(ctx):
                 'wrap_ufunc.wrapper: no path that computes the result was found',
                 file=FUNCS_REL, function=w.qualname, line=w.lineno)
         return rr
+    # a path that hands the evaluator to a private helper of the module
+    # (`res = _helper(safe_eval, ...)`) continues in that helper: its own
+    # result-producing blocks are the evaluation paths
+    expanded = []
     for stmts, cond, first in prod:
+        sub = _helper_paths(ctx, w, first, carriers)
+        if sub is None:
+            expanded.append((stmts, cond, first, w, carriers))
+        else:
+            for st2, c2, f2, h, car2 in sub:
+                expanded.append((st2, ' and '.join(x for x in (cond, c2) if x),
+                                 f2, h, car2))
+    for stmts, cond, first, w_, carriers_ in expanded:
         rr.instances += 1
-        uses = any(isinstance(c, ast.Name) and c.id in carriers
+        uses = any(isinstance(c, ast.Name) and c.id in carriers_
                    for s in stmts for c in ast.walk(s))
         numpy_bcast = any(
             isinstance(c, ast.Call) and ctx.cg.resolve_name_expr(
-                w, c.func) in BCAST for s in stmts for c in ast.walk(s))
+                w_, c.func) in BCAST for s in stmts for c in ast.walk(s))
         if not numpy_bcast:
             # the carrier may have been lifted outside this block
-            for nm in carriers - {'safe_eval'}:
+            for nm in carriers_ - {'safe_eval'}:
                 if any(isinstance(c, ast.Name) and c.id == nm
                        for s in stmts for c in ast.walk(s)):
-                    for n in own_nodes(w):
+                    for n in own_nodes(w_):
                         if isinstance(n, ast.Assign) and any(
                                 isinstance(t, ast.Name) and t.id == nm
                                 for t in n.targets) and any(
                                 isinstance(c, ast.Call) and
-                                ctx.cg.resolve_name_expr(w, c.func) in BCAST
+                                ctx.cg.resolve_name_expr(w_, c.func) in BCAST
                                 for c in ast.walk(n.value)):
                             numpy_bcast = True
         where = '%s:%d' % (FUNCS_REL, first.lineno)
@@ -176,7 +255,7 @@ def rule_funnel(ctx):
                 for c in ast.walk(s):
                     if isinstance(c, ast.Call) and isinstance(
                             c.func, (ast.Name, ast.Attribute)):
-                        r_ = ctx.cg.resolve_name_expr(w, c.func)
+                        r_ = ctx.cg.resolve_name_expr(w_, c.func)
                         if r_ and r_[0] == 'func' and r_[1].module is w.module \
                                 and r_[1].parent is None:
                             helpers.add(r_[1].name)
@@ -293,15 +372,26 @@ def rule_funnel(ctx):
     for n in own_nodes(w):
         if isinstance(n, ast.ExceptHandler) and n.type is not None and \
                 'ValueError' in norm_src(n.type):
-            t = ' '.join(norm_src(s) for s in n.body)
-            probes = any(
-                isinstance(c, ast.Call) and isinstance(
-                    c.func, (ast.Name, ast.Attribute)) and
-                ctx.cg.resolve_name_expr(w, c.func) == (
-                    'ext', 'numpy.broadcast')
-                for s in n.body for c in ast.walk(s))
-            if probes and 'BroadcastError' in t:
-                ok = True
+            # the handler itself, or a private helper it calls
+            scopes_ = [(w, n.body)]
+            for s in n.body:
+                for c in ast.walk(s):
+                    if isinstance(c, ast.Call) and isinstance(
+                            c.func, (ast.Name, ast.Attribute)):
+                        r_ = ctx.cg.resolve_name_expr(w, c.func)
+                        if r_ and r_[0] == 'func' and r_[1].module is \
+                                w.module and r_[1].name.startswith('_'):
+                            scopes_.append((r_[1], r_[1].node.body))
+            for g_, body_ in scopes_:
+                t = ' '.join(norm_src(s) for s in body_)
+                probes = any(
+                    isinstance(c, ast.Call) and isinstance(
+                        c.func, (ast.Name, ast.Attribute)) and
+                    ctx.cg.resolve_name_expr(g_, c.func) == (
+                        'ext', 'numpy.broadcast')
+                    for s in body_ for c in ast.walk(s))
+                if probes and 'BroadcastError' in t:
+                    ok = True
     if ok:
         rr.ok('a numpy broadcasting failure is re-raised as BroadcastError',
               FUNCS_REL)
@@ -422,19 +512,30 @@ def rule_fill(ctx):
     for f, val in sib:
         rr.instances += 1
         # `res, r, c = <call resolved to _init_reshape>(...)`, however the
-        # helper is addressed (bare name, Class.helper, alias)
+        # helper is addressed (bare name, Class.helper, alias), in the
+        # function or in a private helper it delegates the fallback to
+        from ..util import with_helpers
         inits = []
-        for n in own_nodes(f):
-            if isinstance(n, ast.Assign) and len(n.targets) == 1 and isinstance(
-                    n.targets[0], ast.Tuple) and len(
-                    n.targets[0].elts) == 3 and all(isinstance(
-                    e, ast.Name) for e in n.targets[0].elts) and isinstance(
-                    n.value, ast.Call) and _calls_fn(ctx, f, n.value, ir):
-                inits.append(dict(zip(('res', 'r', 'c'), (
-                    e.id for e in n.targets[0].elts))))
+        for g in with_helpers(ctx, f):
+            gval = val if g is f else (g.params[0] if (
+                g.cls is not None and val == f.params[0] and g.params)
+                else val)
+            for n in own_nodes(g):
+                if isinstance(n, ast.Assign) and len(
+                        n.targets) == 1 and isinstance(
+                        n.targets[0], ast.Tuple) and len(
+                        n.targets[0].elts) == 3 and all(isinstance(
+                        e, ast.Name) for e in n.targets[0].elts) and \
+                        isinstance(n.value, ast.Call) and _calls_fn(
+                        ctx, g, n.value, ir):
+                    d_ = dict(zip(('res', 'r', 'c'), (
+                        e.id for e in n.targets[0].elts)))
+                    d_['g'], d_['val'] = g, gval
+                    inits.append(d_)
         init = bool(inits)
         copy = init and has('%s[:%s, :%s] = %s' % (
-            inits[0]['res'], inits[0]['r'], inits[0]['c'], val), f, stmt=True)
+            inits[0]['res'], inits[0]['r'], inits[0]['c'], inits[0]['val']),
+            inits[0]['g'], stmt=True)
         if init and copy:
             rr.ok('%s starts from _init_reshape and copies the value into '
                   '[:r, :c]' % f.qualname, f.module.rel)
@@ -510,5 +611,7 @@ def run(ctx):
     S = ctx.soft
     from .common import rule_memo
     regs = [r for r in ctx.registry.all() if r.has('wrap_ufunc')]
+    from .c07 import rule_nomut
     return [S(rule_funnel, ctx), S(rule_fill, ctx),
-            S(rule_memo, ctx, 'C05', 'C05.memo', regs)]
+            S(rule_memo, ctx, 'C05', 'C05.memo', regs),
+            S(rule_nomut, ctx, 'C05', 'C05.nomut')]
